@@ -23,16 +23,16 @@ import (
 )
 
 type hookRow struct {
-	field, wtype, kind    string
-	collected             bool
-	slice                 string
-	collectPos            string
-	applied               bool
-	dir                   string // "Desc" | "Asc"
-	base, store           string // Hooks field read as the innermost hook / assigned
-	nilDefault            bool
-	guarded               bool // apply block is inside `if v != nil`
-	applyPos              string
+	field, wtype, kind string
+	collected          bool
+	slice              string
+	collectPos         string
+	applied            bool
+	dir                string // "Desc" | "Asc"
+	base, store        string // Hooks field read as the innermost hook / assigned
+	nilDefault         bool
+	guarded            bool // apply block is inside `if v != nil`
+	applyPos           string
 }
 
 func exprString(e ast.Expr) string {
